@@ -286,3 +286,84 @@ func pipeLine(c pipeCfg, o pipeObs) string {
 	return fmt.Sprintf("C18 trace %d %d %d w=%s lost=%s multi=%s before=%s leak=%s note=%s", c.nProd, c.nMsg, c.mode,
 		intsTok(o.written), intsTok(lost), mt, intsTok(o.before), leak, note)
 }
+
+// runPrestart queues n messages (with done channels) on a peer whose
+// connection is associated but whose handshake has not completed, then lets
+// the handshake fail (fail=true: the remote's first message is not a version)
+// or complete and be followed by a Disconnect; it reports how many completion
+// signals arrived.
+func runPrestart(inbound bool, n int, fail bool) string {
+	params := &chaincfg.MainNetParams
+	btcnet := params.Net
+	remoteAddr := &net.TCPAddr{IP: net.ParseIP("10.1.2.3"), Port: 18555}
+	peerAddr := &net.TCPAddr{IP: net.ParseIP("10.9.9.9"), Port: 8333}
+	cfg := &peer.Config{
+		UserAgentName: "verif", UserAgentVersion: "1.0", ChainParams: params,
+		ProtocolVersion: wire.ProtocolVersion, TrickleInterval: time.Hour,
+	}
+	var p *peer.Peer
+	if inbound {
+		p = peer.NewInboundPeer(cfg)
+	} else {
+		var err error
+		if p, err = peer.NewOutboundPeer(cfg, remoteAddr.String()); err != nil {
+			return "err:newpeer"
+		}
+	}
+	pe, re := newPipe(peerAddr, remoteAddr)
+	rd := newReader(re)
+	p.AssociateConnection(pe)
+	dones := make([]chan struct{}, n)
+	for i := range dones {
+		dones[i] = make(chan struct{}, 4)
+		p.QueueMessage(wire.NewMsgPong(uint64(i)+1), dones[i])
+	}
+	if fail {
+		re.Write(encMsg(wire.NewMsgGetAddr(), btcnet))
+	} else {
+		me := wire.NewNetAddressIPPort(net.ParseIP("10.1.2.3"), 18555, 0)
+		you := wire.NewNetAddressIPPort(net.ParseIP("10.9.9.9"), 8333, 0)
+		nonceCtr += 0x9E3779B97F4A7C15
+		re.Write(encMsg(wire.NewMsgVersion(me, you, nonceCtr, 0), btcnet))
+		re.Write(encMsg(wire.NewMsgVerAck(), btcnet))
+		want := n
+		rd.waitFor(func(ms []wmsg) bool {
+			k := 0
+			for _, m := range ms {
+				if m.cmd == "pong" {
+					k++
+				}
+			}
+			return k >= want
+		})
+	}
+	re.CloseWrite()
+	note := ""
+	dch := make(chan struct{})
+	go func() { p.WaitForDisconnect(); close(dch) }()
+	select {
+	case <-dch:
+	case <-time.After(waitLimit):
+		note = " note=no-disconnect"
+	}
+	if !waitCensusClean() {
+		note += " note=goroutine-leak"
+	}
+	got, multi := 0, 0
+	for _, d := range dones {
+		switch l := len(d); {
+		case l == 1:
+			got++
+		case l > 1:
+			multi++
+		}
+	}
+	ms, _ := rd.snapshot()
+	w := 0
+	for _, m := range ms {
+		if m.cmd == "pong" {
+			w++
+		}
+	}
+	return fmt.Sprintf("done=%d/%d multi=%d written=%d%s", got, n, multi, w, note)
+}
